@@ -35,8 +35,12 @@ Proof. unfold quarter. now rewrite !st_set_length. Qed.
 Lemma double_round_length s : length (double_round s) = length s.
 Proof. unfold double_round. now rewrite !quarter_length. Qed.
 
+Lemma iter_length_gen {A} (f : list A -> list A) (Hf : forall s, length (f s) = length s) n s :
+  length (iter n f s) = length s.
+Proof. revert s; induction n as [|n IH]; intros s; cbn [iter]; [reflexivity|]. rewrite IH. apply Hf. Qed.
+
 Lemma iter_double_round_length n s : length (iter n double_round s) = length s.
-Proof. revert s; induction n as [|n IH]; intros s; cbn [iter]; [reflexivity|]. now rewrite IH, double_round_length. Qed.
+Proof. apply iter_length_gen. exact double_round_length. Qed.
 
 Lemma add_states_length a b : length a = length b -> length (add_states a b) = length a.
 Proof.
